@@ -274,20 +274,22 @@ func ruleSingleDispatch(c *Ctx, rule string) {
 			nRet := 0
 			forEachReturnValue(lf, 0, func(v ssa.Value, at ssa.Instruction) {
 				nRet++
-				good := isNilConst(v)
-				if mi, isMI := v.(*ssa.MakeInterface); isMI {
-					switch x := stripConv(mi.X).(type) {
-					case *ssa.IndexAddr, *ssa.FieldAddr, *ssa.Alloc:
-						good = true
-					case *ssa.Const:
+				good := true
+				for _, leaf := range phiLeaves(v) {
+					lg := isNilConst(leaf)
+					if mi, isMI := leaf.(*ssa.MakeInterface); isMI {
+						switch stripConv(mi.X).(type) {
+						case *ssa.IndexAddr, *ssa.FieldAddr, *ssa.Alloc:
+							lg = true
+						}
+					}
+					if !lg {
 						good = false
-					default:
-						_ = x
 					}
 				}
 				c.check(good, rule, w.Short(lf)+": returns the nil interface or the address of a descriptor", w.At(at), desc(v), "the method lookup returns "+desc(v)+" as interface{}: when that pointer is nil (method not found) the caller receives a NON-nil interface holding a nil pointer, its 'not found' test does not fire and the nil descriptor is dereferenced — an unknown method name panics the receive loop and ends every RPC of the tunnel")
 			})
-			c.floor(rule, nRet, 2, "return values of the method lookup")
+			c.floor(rule, nRet, 1, "return values of the method lookup")
 		}
 	}
 	// lookup(sd, parts[1])
